@@ -445,7 +445,8 @@ def describe(tier):
         technique='stateless DFS with deviation budget over the real Pipeline/ItemQueue/'
                   'Producer/Worker on a virtual asyncio loop',
         rule='K<=%d items, T<=2 tasks, initial concurrency 1..%d, optional source latency, '
-             'one failing (task,item) or failing source call; every order of task/source '
+             'one failing (task,item) or failing source call, a source that never answers '
+             'again once a stop is requested; every order of task/source '
              'completions at quiescence is free; early completion, stop(), and concurrency '
              ':= c (c in 0..%d, <=%d changes) cost one deviation each (budget %d).  '
              'distinct = distinct canonical pipeline states' % (
